@@ -1,6 +1,7 @@
 package rules
 
 import (
+	"go/token"
 	"fmt"
 	"go/types"
 	"sort"
@@ -451,7 +452,15 @@ func c12(p *core.Prog, r *core.Report) {
 	}
 	groups := map[string]*leakGroup{}
 	var gorder []string
+	faultExits := 0
 	noteLeak := func(key, fn, construct, pos string, ret *ssa.Return) {
+		// an exit that returns a definitely non-nil error is a fault path by
+		// construction: the property tolerates a leak there
+		if ret != nil && returnsNonNilError(ret) {
+			faultExits++
+			r.Ok("C12-R5", fn, construct+" [exit returns a non-nil error]", pos, "fault-path exit (non-nil error returned): leak tolerated by the property")
+			return
+		}
 		g := groups[key]
 		if g == nil {
 			g = &leakGroup{fn, construct, pos, map[*ssa.Return]bool{}}
@@ -743,4 +752,32 @@ func isFrameT(t types.Type) bool {
 	}
 	n, ok := pt.Elem().(*types.Named)
 	return ok && n.Obj().Name() == "Frame" && n.Obj().Pkg() != nil && n.Obj().Pkg().Path() == core.Root
+}
+
+// returnsNonNilError: some error-typed result of this return is certainly
+// non-nil (guarded by != nil on every path to the return, a package-level
+// error sentinel, or a value that is never nil).
+func returnsNonNilError(ret *ssa.Return) bool {
+	errT := types.Universe.Lookup("error").Type()
+	fs := factsAt(ret.Block())
+	for _, v := range core.ReturnValues(ret) {
+		if !types.Identical(v.Type(), errT) {
+			continue
+		}
+		if k, isK := v.(*ssa.Const); isK && k.IsNil() {
+			continue
+		}
+		if fs.nilCmp(func(x ssa.Value) bool { return x == v }, false) {
+			return true
+		}
+		if u, isU := v.(*ssa.UnOp); isU && u.Op == token.MUL {
+			if g, isG := u.X.(*ssa.Global); isG && (strings.HasPrefix(g.Name(), "err") || strings.HasPrefix(g.Name(), "Err")) {
+				return true
+			}
+		}
+		if core.NeverNil(v, 0) {
+			return true
+		}
+	}
+	return false
 }
